@@ -3,6 +3,7 @@
 id="$1"; shift
 checks="${*:-${id:0:3}}"
 p="/verif/seeded/$id/patch.diff"; [ -f "$p" ] || p="/tmp/wt-out/$id/patch.diff"
+if [ -n "$(git -C /repo status --porcelain)" ]; then echo "/repo has uncommitted changes: commit or stash them first" >&2; exit 2; fi
 git -C /repo apply "$p" || exit 2
 for c in $checks; do
   (cd /verif && timeout 1500 ./check "$c" --tier quick 2>&1 | grep -E "^(VIOLATION|OK)" | head -2 | cut -c1-200)
